@@ -20,7 +20,10 @@ TConst == /\ Ev("Const") /\ Log[l].nout = 0 /\ Log[l].q <= 1 /\ UNCHANGED <<memo
 \* smooth integrands: the mean of R seeded repetitions within six standard errors of the exact value
 TStat == /\ Ev("Stat") /\ Log[l].nout = 0 /\ Log[l].zq <= 6 /\ UNCHANGED <<memo, pairs>>
 \* two- and three-dimensional front ends: every argument receives the variable of its own pair of limits
-TFront == /\ Ev("Front") /\ Log[l].nwrong = 0 /\ Log[l].neval > 0 /\ Log[l].zq <= 6 /\ UNCHANGED <<memo, pairs>>
+\* front ends: every evaluation inside the box of the call, the mean within six standard errors, and (warmed = 1: the same calls made
+\* after front-end calls over another box) the same values bit for bit as in a process without history
+TFront == /\ Ev("Front") /\ Log[l].nwrong = 0 /\ Log[l].neval > 0 /\ Log[l].zq <= 6 /\ Log[l].warmed \in {0, 1} /\ Log[l].histsame
+          /\ UNCHANGED <<memo, pairs>>
 Next == TCall \/ TConst \/ TStat \/ TFront
 Spec == Init /\ [][Next]_vars
 TraceAccepted == TLCGet("stats").diameter - 1 = Len(Log)
